@@ -358,12 +358,19 @@ Definition ser_obs (o : obs) : list nat :=
    H5Writer.save_entity(root, add_children=True) finds every attached entity already stored: no other change *)
 Definition close_effect (w : st) : st := fst (step pinned w (OList KGroup)).
 
-(* The per-operation observations are compared through a digest (polynomial hash modulo the Mersenne prime 2^61-1 of the
+(* The per-operation observations are compared through a digest (polynomial hash modulo 2^64 of the
    serialised observation; the driver computes the same digest): a case file then carries one number per operation
    instead of the whole state.  The state after close / re-open and the copy outcomes are compared verbatim. *)
-Definition hmod : N := 2305843009213693951%N.
-Definition hstep (h : N) (x : nat) : N := ((h * 1000003 + N.of_nat x + 1) mod hmod)%N.
-Definition digest (l : list nat) : N := fold_left hstep l 7%N.
+Definition hmask : N := 18446744073709551615%N.
+Definition pack (l : list nat) : N := fold_left (fun a x => N.lor (N.shiftl a 8) (N.of_nat x)) l 0%N.
+Definition hstep (h : N) (x : N) : N := N.land (h * 6364136223846793005 + x + 1)%N hmask.
+(* eight numbers are packed into one word before each mixing step *)
+Fixpoint digest_from (h : N) (l : list nat) {struct l} : N :=
+  match l with
+  | a :: b :: c :: d :: e :: f :: g :: i :: r => digest_from (hstep h (pack [a; b; c; d; e; f; g; i])) r
+  | _ => hstep h (pack l)
+  end.
+Definition digest (l : list nat) : N := digest_from 7%N l.
 
 Definition final_trace (w0 : st) : list nat :=
   let w := close_effect w0 in
